@@ -92,6 +92,7 @@ typedef struct {
 static TLS ev_t evq[MAXEV];
 static TLS int nev = 0, ev_overflow = 0;
 static TLS volatile int in_api = 0;     /* an API call is in flight */
+static TLS volatile int in_probe = 0;   /* ... or one of the driver's own read-back calls (store, keygen, queries): library code all the same */
 static TLS volatile int in_stub = 0;    /* a dependency stub is running (its own libc use is not the library's) */
 
 static ev_t* ev_new(int kind, char impl) {
@@ -555,8 +556,9 @@ static bool seed_indices(const polyseed_data* s, uint8_t secret[19], uint16_t id
 #else
     uint8_t img[POLYSEED_SIZE];
     int save_nev = nev, save_in = in_api;
-    in_api = 0;
+    in_api = 0; in_probe = 1;
     polyseed_store(s, img);
+    in_probe = 0;
     nev = save_nev; in_api = save_in;
     if (memcmp(img, "POLYSEED", 8) != 0) return false;
     memcpy(secret, img + 10, 19);
@@ -675,7 +677,7 @@ static char altstack[65536];
 static void fault_line(const char* what, int sig) {
     static volatile int once = 0;
     if (once++) _exit(3);
-    int was_in_api = in_api;
+    int was_in_api = in_api || in_probe;
     in_stub = 100;
     flush_queue();
     /* a line may be half written: terminate it so that the trace stays parseable up to here */
@@ -817,16 +819,21 @@ static void emit_live(void) {
         /* probes are ordinary API calls without effect on the abstract state; their KDF call is
            recorded apart from the event queue */
         int save_nev = nev;
-        in_api = 0;
+        in_api = 0; in_probe = 1;
+        const char* save_op = cur_op;
+        cur_op = "store";
         polyseed_store(s, img);
         uint8_t key[4];
         kdf_key_ptr = key;
+        cur_op = "keygen";
         polyseed_keygen(s, 0, sizeof key, key);
+        cur_op = "query";
         ev_t* k = NULL;      /* the probe's KDF call (other dependency calls, e.g. a wipe of the salt, may follow it) */
         for (int q = save_nev; q < nev; ++q) if (evq[q].kind == EV_KDF) { k = &evq[q]; break; }
         uint64_t bd = polyseed_get_birthday(s);
         unsigned ft = polyseed_get_feature(s, 0xffffffffu);
         int enc = polyseed_is_encrypted(s);
+        in_probe = 0; cur_op = save_op;
         fprintf(out, "%s{\"h\":%d", first ? "" : ",", hregs[r].id);
         emit_bytes("img", img, POLYSEED_SIZE);
         if (k && k->kind == EV_KDF) {
@@ -1412,7 +1419,11 @@ static int protect_cb(struct dl_phdr_info* info, size_t size, void* data) {
 #endif
 
 int main(int argc, char** argv) {
-    if (argc < 4) { fprintf(stderr, "usage: driver_mt <setup-script> <trace-prefix> <script>...\n"); return 2; }
+    /* --serial: the scripts run one after the other on the MAIN thread (the reference a concurrent run is compared with:
+       "each thread observes exactly the results a serial execution of its calls would give") */
+    bool serial = argc > 1 && !strcmp(argv[1], "--serial");
+    if (serial) { --argc; ++argv; }
+    if (argc < 4) { fprintf(stderr, "usage: driver_mt [--serial] <setup-script> <trace-prefix> <script>...\n"); return 2; }
     trace_prefix = argv[2];
     char name[4096];
     snprintf(name, sizeof name, "%s.setup", trace_prefix);
@@ -1426,7 +1437,7 @@ int main(int argc, char** argv) {
     fprintf(out, "{\"e\":\"End\",\"complete\":true"); eol();
     fclose(out);
     int n = argc - 3;
-    pthread_barrier_init(&start_barrier, NULL, (unsigned)n);
+    pthread_barrier_init(&start_barrier, NULL, serial ? 1u : (unsigned)n);
 #ifdef DRV_SO
     int prot = PROT_READ;
     dl_iterate_phdr(protect_cb, &prot);
@@ -1434,8 +1445,11 @@ int main(int argc, char** argv) {
 #endif
     pthread_t th[64];
     thread_scripts = argv + 3;
-    for (int i = 0; i < n && i < 64; ++i) pthread_create(&th[i], NULL, thread_main, (void*)(intptr_t)i);
-    for (int i = 0; i < n && i < 64; ++i) pthread_join(th[i], NULL);
+    if (serial) { for (int i = 0; i < n && i < 64; ++i) thread_main((void*)(intptr_t)i); }
+    else {
+        for (int i = 0; i < n && i < 64; ++i) pthread_create(&th[i], NULL, thread_main, (void*)(intptr_t)i);
+        for (int i = 0; i < n && i < 64; ++i) pthread_join(th[i], NULL);
+    }
 #ifdef DRV_SO
     prot = PROT_READ | PROT_WRITE;
     dl_iterate_phdr(protect_cb, &prot);
